@@ -70,3 +70,16 @@ Example repeated_message_shared_once :
   eff lc_live [HMsg dual_det false err_notlive; HAdv (5 * hour); HMsg dual_det true err_livehost] =
   eff lc_live [HMsg dual_det false err_notlive].
 Proof. vm_compute. auto. Qed.
+
+(* C07_if_direction_fresh_identifier: after `good`, another client (other secret, hence another identifier) is admitted *)
+Definition good2 : wrapper :=
+  {| w_secret := [8; 8; 8]; w_payload := Some (pl true false 1 0 [111; 107] false); w_source := src_api;
+     w_regaddr := Some client4; w_rr := None |}.
+Example fresh_identifier_admitted :
+  (forall r0 r, In r0 (drafts_of x_select x_params x_port x_geo cfg0 good) ->
+     new_reg x_select x_params x_port x_geo cfg0 good2 (pl true false 1 0 [111; 107] false) false = Ok r -> same_key r0 r = false) /\
+  n_announced (run false cfg0 (fst (process_all x_select x_params x_port x_geo x_covert (x_live false) cfg0 [] [good])) good2) = 1%nat.
+Proof.
+  split; [|vm_compute; reflexivity].
+  intros r0 r H E. vm_compute in H. destruct H as [<-|[]]. vm_compute in E. injection E as <-. vm_compute. reflexivity.
+Qed.
